@@ -154,6 +154,11 @@ pub trait Subject: Sized + 'static {
     }
     /// Build an op through the public API from a real read of `s`.  None = not applicable.
     fn edit(s: &Self::St, actor: Option<u8>, e: EditArgs, aux: &mut Aux) -> Option<(Self::Op, Sem, String)>;
+    /// A remove built NOW at `s` from a context that was read EARLIER at the same replica (`old` is a
+    /// remembered earlier state of this replica): the README's "stale Rm context".  None = not supported.
+    fn edit_stale_rm(_s: &Self::St, _old: &Self::St, _e: EditArgs) -> Option<(Self::Op, Sem, String)> {
+        None
+    }
     /// Everything a user can read, normalised (keyed by observation point).
     fn observe(s: &Self::St) -> Obs;
     /// Prediction of `observe` from the knowledge set alone.  None = no model for this subject.
@@ -315,7 +320,17 @@ impl<S: Subject> Sim<S> {
             return None;
         }
         let actor = self.reps[r].actor;
-        let (op, sem, call) = S::edit(&self.reps[r].st, actor, e, &mut self.aux)?;
+        // sometimes: a remove whose context was read earlier at this replica (its latest remembered snapshot)
+        let mut stale = None;
+        if e.f % 5 == 0 {
+            if let Some(snap) = self.snaps.iter().rev().find(|s| s.from == r) {
+                stale = S::edit_stale_rm(&self.reps[r].st, &snap.st, e);
+            }
+        }
+        let (op, sem, call) = match stale {
+            Some(x) => x,
+            None => S::edit(&self.reps[r].st, actor, e, &mut self.aux)?,
+        };
         let id = self.ops.len();
         let seq = self.metas.iter().filter(|m| m.author == r).count();
         let deps = self.reps[r].know;
@@ -526,6 +541,11 @@ impl<S: Subject> Sim<S> {
             "history": self.log,
         })
     }
+}
+
+/// canonical rendering of an ordering error, built from its fields (independent of the crate's Debug impls)
+pub fn render_dot_range(e: &crdts::DotRange<u8>) -> String {
+    format!("DotRange {{ actor: {}, counter_range: {}..{} }}", e.actor, e.counter_range.start, e.counter_range.end)
 }
 
 pub fn clock_json(c: &Clock) -> Value {
